@@ -600,7 +600,11 @@ class Quotient(Constructor[CombinatorialClassType, CombinatorialObjectType]):
     def get_equation(
         self, lhs_func: sympy.Function, rhs_funcs: Tuple[sympy.Function, ...]
     ) -> sympy.Eq:
-        if any(self.extra_parameters):
+        # the literal equation is only right without parameters: a parameter of a child
+        # that nothing is mapped to would stay a free variable on both sides
+        if any(self.extra_parameters) or any(
+            len(func.args) > 1 for func in (lhs_func, *rhs_funcs)
+        ):
             raise NotImplementedError(
                 "Quotient equation is not implemented with extra parameters. "
                 "You can fall back on the cartesian equation."
